@@ -18,7 +18,10 @@ def pick(line_key, seed, keep_frac):
     return int.from_bytes(h[:4], "big") / 2**32 < keep_frac
 
 
-def run_batch(g, tier, name, runs, out, acc, cfg_text=None, decode=None):
+ENDPOINT_CONFORM = dict(module="EndpointConform", tok2rec=groups.inb_tok2rec, tail=1, project=groups.inb_project)
+
+
+def run_batch(g, tier, name, runs, out, acc, cfg_text=None, decode=None, module=None):
     """replay one batch of runs on the real code and judge it; only verdicts are kept"""
     if not runs:
         return
@@ -32,10 +35,11 @@ def run_batch(g, tier, name, runs, out, acc, cfg_text=None, decode=None):
     out["wall"]["judge"] = round(out["wall"].get("judge", 0) + time.time() - t0, 2)
     acc["runs"] += verdict["runs"]
     acc["events"] += verdict["events"]
-    if g.get("conform") and cfg_text:
+    cspec = ENDPOINT_CONFORM if module == "MC_Endpoint" else g.get("conform")
+    if cspec and cfg_text:
         # impl -> spec at event level: TLC steps the implementation-shaped model along every recorded run
         t1 = time.time()
-        c = vlib.conform(dict(g["conform"], decode=decode), cfg_text, runs, tp, f"{g['name']}_{tier}_{name}")
+        c = vlib.conform(dict(cspec, decode=decode), cfg_text, runs, tp, f"{g['name']}_{tier}_{name}")
         out["wall"]["conform"] = round(out["wall"].get("conform", 0) + time.time() - t1, 2)
         cf = acc.setdefault("conform", dict(runs=0, ok=0, steps=0, drift=0, drift_samples=[]))
         cf["runs"] += c["runs"]; cf["ok"] += c["ok"]; cf["steps"] += c["steps"]; cf["drift"] += c.get("nstuck", 0)
@@ -123,7 +127,7 @@ def run_model_group(g, tier, seed):
             kept += 1
         out["tlc"].append(dict(cfg=name, generated=r["generated"], distinct=r["distinct"], wall=r["wall"],
                                cached=r["cached"], transitions=total, replayed=kept, model_bad_lines=nbad))
-        run_batch(g, tier, name, runs, out, acc, cfg_text, decode)
+        run_batch(g, tier, name, runs, out, acc, cfg_text, decode, module)
     rnd = random.Random(seed)
     extra = g.get("extra_runs", lambda tier, rnd: [])(tier, rnd)
     for e in extra:
